@@ -23,7 +23,11 @@ NMember(e) == IF e.args = <<>> THEN 1
 NJ == Len(Junk)
 \* ids above 4NJ+3: a letter a..z / A..Z appended to the argument (sweeps every possible unit letter)
 Letters == Cp("abcdefghijklmnopqrstuvwxyzABCDEFGHIJKLMNOPQRSTUVWXYZ")
-NCorr == 4 * NJ + 3 + Len(Letters)
+\* then: keyword in upper case, keyword capitalised (find's keywords are case-sensitive), the two-argument
+\* primaries with their arguments glued ("a"b), a quoted argument with junk glued after the closing quote
+NCorr == 4 * NJ + 3 + Len(Letters) + 4
+UpperSeq(s) == [i \in 1..Len(s) |-> IF IsLower(s[i]) THEN s[i] - 32 ELSE s[i]]
+CapSeq(s) == [i \in 1..Len(s) |-> IF i = 2 /\ IsLower(s[i]) THEN s[i] - 32 ELSE s[i]]
 
 Init == vSeq = <<>>
 Next ==
@@ -42,6 +46,7 @@ Primary ==
       j == IF c = 0 \/ c > 4 * NJ + 3 THEN 0 ELSE ((c - 1) % NJ) + 1
       jc == IF j = 0 THEN <<>> ELSE <<Junk[j]>>
       arg == IF c = 0 THEN w
+             ELSE IF c > 4 * NJ + 3 + Len(Letters) THEN w
              ELSE IF c > 4 * NJ + 3 THEN w \o <<Letters[c - (4 * NJ + 3)]>>
              ELSE IF c <= NJ THEN w \o jc
              ELSE IF c <= 2 * NJ THEN jc \o w
@@ -50,10 +55,17 @@ Primary ==
       kw == IF c > 3 * NJ + 1 /\ c <= 4 * NJ + 1 THEN e.kw \o jc
             ELSE IF c = 4 * NJ + 2 THEN SubSeq(e.kw, 1, Len(e.kw) - 1)
             ELSE e.kw
-  IN IF c = 3 * NJ + 1 THEN kw \o lead                          \* last argument missing
+      top == 4 * NJ + 3 + Len(Letters)
+  IN IF c = top + 1 THEN Eager(UpperSeq(e.kw)) \o lead \o (IF hasArg THEN <<cSP>> \o w ELSE <<>>)
+     ELSE IF c = top + 2 THEN Eager(CapSeq(e.kw)) \o lead \o (IF hasArg THEN <<cSP>> \o w ELSE <<>>)
+     ELSE IF c = top + 3 THEN
+        \* every argument quoted, the last one glued to the one before (or to nothing when there is one)
+        (IF Len(e.args) >= 2 THEN e.kw \o <<cSP, cDQ>> \o OneMember(e.args[1]) \o <<cDQ>> \o w ELSE e.kw \o <<cSP, cDQ, 120, cDQ>> \o w)
+     ELSE IF c = top + 4 THEN e.kw \o lead \o <<cSP, cSQ, 120, 121, cSQ, 122>>
+     ELSE IF c = 3 * NJ + 1 THEN kw \o lead                          \* last argument missing
      ELSE IF c = 4 * NJ + 3 THEN kw \o lead \o arg              \* glued
      ELSE IF hasArg THEN kw \o lead \o <<cSP>> \o arg
-     ELSE IF c > 4 * NJ + 3 THEN kw \o <<Letters[c - (4 * NJ + 3)]>>
+     ELSE IF c > 4 * NJ + 3 /\ c <= 4 * NJ + 3 + Len(Letters) THEN kw \o <<Letters[c - (4 * NJ + 3)]>>
      ELSE IF c >= 1 /\ c <= 3 * NJ THEN kw \o jc                \* keyword-only: junk glued to keyword
      ELSE kw
 
